@@ -120,7 +120,8 @@ def opts : Sexp → Option Opts
 def findingIds : List String :=
   ["C17-deprecation-reason-quote", "C17-description-single-line-escapes", "C17-description-block-lossy",
    "C17-tag-url-escapes", "C17-interface-directives-before-implements", "C17-dynamic-interface-implements-dropped",
-   "C17-dynamic-input-field-attrs", "C17-extend-with-description", "C17-compose-url-escape"]
+   "C17-dynamic-input-field-attrs", "C17-extend-with-description", "C17-compose-url-escape",
+   "C17-federation-scalar-any-dropped"]
 
 def parserFinding : String := "C17-parser-directive-always-repeatable"
 
@@ -133,7 +134,8 @@ def defectsOf (ids : List String) : Defects :=
     dynInterfaceImplementsDropped := ids.contains "C17-dynamic-interface-implements-dropped",
     dynInputFieldAttrsFromObject := ids.contains "C17-dynamic-input-field-attrs",
     extendKeepsDescription := ids.contains "C17-extend-with-description",
-    composeUrlRaw := ids.contains "C17-compose-url-escape" }
+    composeUrlRaw := ids.contains "C17-compose-url-escape",
+    fedScalarAnyDropped := ids.contains "C17-federation-scalar-any-dropped" }
 
 /-- all the ways to put `x` into `l` -/
 def insertions {α : Type} (x : α) : List α → List (List α)
